@@ -228,6 +228,12 @@ fn run(ctx: &mut Ctx) {
         ("LABEL @loop\nX 0", "cnt", 0, 2),              // body already uses the start label (see target below)
         ("JUMP @loop", "cnt", 0, 2),
         ("PRAGMA EXTERN foo \"INTEGER (x : INTEGER)\"\nX 0", "cnt", 0, 4),
+        // calibrations-only programs: Program::is_empty() is true for them (len() does not count calibrations)
+        ("DEFCAL X 0:\n\tNOP", "cnt", 0, 3),
+        ("DEFCAL MEASURE 0 addr:\n\tNOP", "cnt", 0, 2),
+        ("DEFCAL X 0:\n\tNOP\nDEFCAL MEASURE 1:\n\tFENCE 1\nDEFCAL CZ 0 1:\n\tFENCE 0 1", "cnt", 0, 5),
+        ("DEFCAL X 0:\n\tNOP\nX 0", "cnt", 0, 2),
+        ("PRAGMA EXTERN \"OCTET\"", "cnt", 0, 2),
     ];
     for (text, name, idx, n) in corpus {
         let body_and_defs = parse_all(text);
@@ -276,6 +282,16 @@ fn run(ctx: &mut Ctx) {
         }
     }
 
+    // 2b. every definition of the pool as the ONLY content of the program (empty body), and with a one-gate body
+    for d in &pools.defs {
+        for body in [vec![], vec![alphabet[0].clone()]] {
+            let p = program_of(std::slice::from_ref(d), &body);
+            for n in 0..=3u32 {
+                wrap_case(ctx, &p, &mref("cnt", 0), &placeholder("loop"), n);
+            }
+        }
+    }
+
     // 3. seeded random: full pools, definitions of every kind, structured control flow, and a share of
     //    premise-violating inputs (counter touched / start label reused / non-zero index / HALT)
     let mut rng = ctx.rng(33);
@@ -287,13 +303,20 @@ fn run(ctx: &mut Ctx) {
         p.into_body_instructions().collect()
     };
     for _ in 0..n_random {
-        let defs = pools.random_defs(&mut rng, 8);
+        let mut defs = pools.random_defs(&mut rng, 8);
+        let cal_only = rng.chance(1, 10);
+        if cal_only {
+            defs.retain(|d| matches!(d, Instruction::CalibrationDefinition(_) | Instruction::MeasureCalibrationDefinition(_)));
+        }
         let mut fresh = 0u64;
         let mut body = if rng.chance(1, 2) {
             pools.random_body(&mut rng, 10)
         } else {
             random_structured_body(&pools, &mut rng, 4, &mut fresh)
         };
+        if cal_only && rng.chance(1, 2) {
+            body.clear();
+        }
         let violate = rng.chance(1, 8);
         if violate && !body.is_empty() {
             let at = rng.below(body.len() as u64) as usize;
